@@ -14,7 +14,7 @@ PROFILE = {'name': 'c02',
            'spec': {'shapes': ['dense', 'lec_gt_students', 'lec_gt_students', 'one_lecturer', 'one_lecturer',
                                'big_targets', 'big_targets', 'lowerq', 'lowerq', 'long_lists', 'zero_caps',
                                'tight_lecturer', 'all_tied']},
-           'opts': {'ncrit_choices': [0, 1, 1, 2, 2, 2, 3, 3, 4, 5]}, 'medium_rate': 0.1, 'shipped_rate': 0.02}
+           'opts': {'ncrit_choices': [0, 1, 1, 2, 2, 2, 3, 3, 4, 5]}, 'medium_rate': 0.1, 'shipped_rate': 0.02, 'large_rate': 0.04}
 
 
 def plan(tier):
